@@ -5,8 +5,12 @@ package querylog
 import (
 	"bytes"
 	"encoding/json"
+	"io"
 	"os"
 	"path/filepath"
+	"runtime"
+	"syscall"
+	"time"
 )
 
 var verifTmpDir string
@@ -22,7 +26,7 @@ func verifLogPath() string {
 
 // verifLoggedRecords parses the file written so far.
 func verifLoggedRecords(path string) (recs []verifRec) {
-	b, err := os.ReadFile(path)
+	b, err := os.ReadFile(verifRealPath(path))
 	if err != nil {
 		return nil
 	}
@@ -48,7 +52,7 @@ func verifLoggedRecords(path string) (recs []verifRec) {
 
 func verifLogLines(path string) (lines int, clean bool) {
 	defer os.RemoveAll(verifTmpDir)
-	b, err := os.ReadFile(path)
+	b, err := os.ReadFile(verifRealPath(path))
 	if err != nil {
 		return 0, false
 	}
@@ -61,4 +65,50 @@ func verifLogLines(path string) (lines int, clean bool) {
 		}
 	}
 	return lines, clean
+}
+
+var verifFIFOData []byte
+
+// verifSlowLogPath: the log file is a FIFO, so every open blocks until the harness
+// opens the reading side; one P, as the goroutines of the symbolic build.
+func verifSlowLogPath() string {
+	runtime.GOMAXPROCS(1)
+	d, err := os.MkdirTemp("", "verif-qlog-")
+	if err != nil {
+		panic(err)
+	}
+	verifTmpDir = d
+	p := filepath.Join(d, "querylog.fifo")
+	if err = syscall.Mkfifo(p, 0o600); err != nil {
+		panic(err)
+	}
+	return p
+}
+
+// verifReleaseLog opens the reading side and collects everything the writers write.
+func verifReleaseLog(path string, writers int) {
+	f, err := os.OpenFile(path, os.O_RDONLY, 0)
+	if err != nil {
+		panic(err)
+	}
+	defer f.Close()
+	// the writers write one line each and close; EOF arrives once all have closed
+	done := make(chan struct{})
+	go func() {
+		defer close(done)
+		verifFIFOData, _ = io.ReadAll(f)
+	}()
+	select {
+	case <-done:
+	case <-time.After(5 * time.Second):
+	}
+	real := filepath.Join(verifTmpDir, "querylog.jsonl")
+	_ = os.WriteFile(real, verifFIFOData, 0o600)
+}
+
+func verifRealPath(path string) string {
+	if filepath.Base(path) == "querylog.fifo" {
+		return filepath.Join(filepath.Dir(path), "querylog.jsonl")
+	}
+	return path
 }
